@@ -188,7 +188,7 @@ def main(argv=None):
         # determinism guard: re-execute the counterexample twice from scratch
         a1 = sorted(mod.replay(tojob(v["job"]), v["choices"]))
         a2 = sorted(mod.replay(tojob(v["job"]), v["choices"]))
-        if a1 != a2 or key not in [k for k, _ in a1]:
+        if [k for k, _ in a1] != [k for k, _ in a2] or key not in [k for k, _ in a1]:
             print("BROKEN(nondeterminism): counterexample for %s does not replay identically" % key)
             print("  run1=%r\n  run2=%r" % (a1[:3], a2[:3]))
             return 2
